@@ -93,6 +93,14 @@ def wordsLE : Bytes → List UInt32
   | a :: b :: c :: d :: rest => le32 a b c d :: wordsLE rest
   | _ => []
 
+/-- Extend a message schedule kept **newest first** (`[W_{t-1}, W_{t-2}, …, W_0]`) by `n` words, each
+    computed by `next` from the words so far (stops early if `next` says the input was not a block). -/
+def extendSchedule (next : List UInt32 → Option UInt32) : Nat → List UInt32 → List UInt32
+  | 0, ws => ws
+  | n+1, ws => match next ws with
+    | some w => extendSchedule next n (w :: ws)
+    | none => ws
+
 /-- 64-bit big-endian encoding of `n mod 2^64` -/
 def be64enc (n : Nat) : Bytes :=
   [UInt8.ofNat (n / 2^56), UInt8.ofNat (n / 2^48), UInt8.ofNat (n / 2^40), UInt8.ofNat (n / 2^32),
